@@ -82,6 +82,29 @@ Definition eff_ok (e : fseffect) : bool :=
   | WriteV s k _ | RemoveV s k | WriteC s k _ | RemoveC s k => key_ok s k
   end.
 
+Definition op_version (o : op) : option str :=
+  match o with Declare _ _ v _ _ _ | AssignTag _ _ _ v => Some v | _ => None end.
+Definition op_tag (o : op) : option str :=
+  match o with Declare _ _ _ _ _ t => t | AssignTag _ t _ _ => Some t | _ => None end.
+Definition opt_ok (x : option str) : bool := match x with Some y => seg_ok y | None => true end.
+
+(* the names a command can put into a new record: product, version, tag *)
+Definition op_ok (o : op) : bool :=
+  seg_ok (op_name o) && negb (is_tmp (op_name o)) && opt_ok (op_version o) && opt_ok (op_tag o).
+
+(* the file effects of a whole history, and the store they build from nothing *)
+Definition op_effects (d : db) (o : op) : list fseffect :=
+  match effects d o with Ok es => es | Err _ => [] end.
+
+Fixpoint run_effects (d : db) (ops : list op) : list fseffect :=
+  match ops with
+  | [] => []
+  | o :: r => op_effects d o ++ run_effects (step_total false d o) r
+  end.
+
+Definition store_of (path : list str) (ops : list op) : fs :=
+  apply_effects [] (images (run_effects (empty_db path) ops)).
+
 (* ---------------------------------------------------------------- the reader *)
 
 Inductive entry :=
